@@ -36,6 +36,16 @@ def main():
         for i in range(k):
             pad.append(object() if r.random() < 0.5 else [None] * r.randint(1, 40))
 
+    # ---- umask / standard input of the analysing process
+    tenv = trial.get("env") or {}
+    if tenv.get("_umask"):
+        os.umask(int(tenv["_umask"], 8))
+    if tenv.get("_close_stdin"):
+        try:
+            os.close(0)
+        except OSError:
+            pass
+
     # ---- the clock seam: every clock function of the time module answers from a simulated clock owned by the trial
     clock = trial.get("clock", "natural")
     if clock != "natural":
